@@ -45,7 +45,7 @@ def run(tier, rep, ev):
             if tier == "quick":
                 combos = R.sample(combos, 6)
             for rec, asset, slash, sink in combos:
-                cases.append({"shape": shape, "calls": [{"name": "extract", "T": T, "rec": rec, "asset": asset, "slash": slash, "sink": sink}],
+                cases.append({"shape": shape, "calls": [{"name": "extract", "T": T, "rec": rec, "asset": asset, "slash": slash, "sink": sink, "absent": len(cases) % 5, "recform": (len(cases) // 5) % 6}],
                               "target": "path" if len(cases) % 2 else "stream", "password": "pw" if len(cases) % 7 == 0 else None,
                               "coder": ["lzma2", "copy", "bzip2", "deflate", "copy", "bcj+lzma2", "delta+lzma2"][len(cases) % 7], "seed": si, "ending": "close",
                               "wd": os.path.join(base, f"c{len(cases)}")})
